@@ -46,7 +46,10 @@ def _np(v):
     """jax / python value -> numpy array (concrete)"""
     if isinstance(v, np.ndarray):
         return v
-    return np.asarray(v)
+    try:
+        return np.asarray(v)
+    except TypeError:          # e.g. typed PRNG key arrays: keep the JAX value (only ever consumed by JAX itself)
+        return v
 
 
 def _obj(v):
@@ -115,6 +118,12 @@ def _b(x):
 
 def _ite(c, a, b):
     if isinstance(c, SB):
+        import z3 as _z3
+        ce = _z3.simplify(c.e)
+        if _z3.is_true(ce):
+            return a
+        if _z3.is_false(ce):
+            return b
         if isinstance(a, SB) or isinstance(b, SB) or isinstance(a, (bool, np.bool_)) and isinstance(b, (bool, np.bool_)):
             import z3
             return SB(z3.If(c.e, SB._l(a), SB._l(b)))
@@ -243,8 +252,8 @@ class Interp:
             STATS["eqns_concrete"] += 1
             if name in self.CONTROL:          # keep interpreting so nested symbolic consts are honoured
                 return getattr(self, "p_" + self.CONTROL[name])(ins, eqn.params, eqn)
-            sub = eqn.primitive.bind(*[jnp.asarray(v) for v in ins], **eqn.params)
-            return [np.asarray(o) for o in (sub if eqn.primitive.multiple_results else [sub])]
+            sub = eqn.primitive.bind(*[(v if not isinstance(v, np.ndarray) else jnp.asarray(v)) for v in ins], **eqn.params)
+            return [_np(o) for o in (sub if eqn.primitive.multiple_results else [sub])]
         STATS["eqns_symbolic"] += 1
         if self.validate and not anysym:
             ins = [_obj(v) if np.issubdtype(np.asarray(v).dtype, np.inexact) else v for v in ins]
